@@ -1,4 +1,5 @@
 import Mdsort.Model.Scripts
+import Mdsort.Model.EvalP
 
 /-!
 # The main loop of mdsort as a program over `Call`, and its two interpreters
@@ -18,11 +19,14 @@ structure ConfBlock where
   expr : Expr
 deriving Repr
 
-/-- What the evaluator needs besides the file system (see `Env`). -/
+/-- What the evaluator needs besides the file system (see `Env`).  `timeFormat` is `time_format` (time.c: `localtime` +
+`strftime`, `none` = NULL), used by the file-time date conditions: it becomes `Env.timeFormat` of the environment a message
+is evaluated in. -/
 structure EvalOracles where
   rx : Pat → Bytes → RxRes
   strptime : Bytes → Option (Tm × Bytes)
   zoneName : Bytes → Option Int
+  timeFormat : Int → Option Bytes := fun _ => none
 
 /-- Contents of the files below the maildirs, by directory path and name. -/
 abbrev Files := List (Bytes × Bytes × Bytes)
@@ -39,6 +43,11 @@ structure MainSt where
   error : Bool
   reject : Bool
   log : List Bytes               -- `path -> destination` lines (log_info), for C06
+  /-- GHOST: a `readdir` loop of the model (`walk`, `closeStdin`) stopped because its FUEL ran out, not because the
+  directory stream ended.  The C loops have no such bound: from that point on the model's run is a truncation of
+  mdsort's.  Never cleared.  `C01_walk_fuel_suffices`: it stays `false` in every `runPlan` run whose fuel covers the
+  directory listings; `C04_fuel_irrelevant`: a run that ends with `false` does not depend on the fuel. -/
+  fuelOut : Bool := false
 deriving Repr
 
 def isStdinPath (p : Bytes) : Bool := p == ofString "/dev/stdin"
@@ -92,7 +101,9 @@ def inspectLines (env : PEnv) (ml : MatchList) (path : Bytes) : List Bytes :=
        | some l => ofString l
        | none => mh.path)
 
-/-- One message: parse, evaluate, interpolate, inspect / execute, free. -/
+/-- One message: parse, evaluate, interpolate, inspect / execute, free.  Evaluation is `evalP`: the `command`,
+`isdirectory` and file-time date conditions issue their calls (`exec(argv, -1)`, `stat`) while the rules are evaluated,
+in evaluation order; the three oracle fields of the environment are not used (Model/EvalP.lean). -/
 def processMessage (env : PEnv) (orc : EvalOracles) (expr : Expr) (md : Maildir) (name : Bytes) (st : MainSt) :
     Prog (MainSt × Maildir) :=
   match md.dirH with
@@ -108,12 +119,13 @@ def processMessage (env : PEnv) (orc : EvalOracles) (expr : Expr) (md : Maildir)
         let eenv : Env := {
           rx := orc.rx, command := fun _ => -1, isDir := fun _ => false, now := env.now,
           strptime := orc.strptime, zoneName := orc.zoneName, fileTime := fun _ => none,
-          dryrun := env.dryrun, path := ms.path }
+          timeFormat := orc.timeFormat, dryrun := env.dryrun, path := ms.path }
         let free (ms : MsgSt) : Prog Unit :=
           match ms.fd with
           | some h => do let _ ← call (.close h); pure ()
           | none => pure ()
-        match eval eenv ms.msg expr 0 ms.msg { ml := [], flags := ms.flags } with
+        let ev ← evalP eenv expr ms.msg ms.flags
+        match ev with
         | (.error, _) => do free ms; pure ({ st with error := true }, md)
         | (.nomatch, _) => do free ms; pure (st, md)
         | (.match, est) =>
@@ -131,7 +143,7 @@ def processMessage (env : PEnv) (orc : EvalOracles) (expr : Expr) (md : Maildir)
 
 /-- `maildir_read` + `maildir_next`: the walk over `new` then `cur` (or the spool). -/
 def walk (env : PEnv) (orc : EvalOracles) (expr : Expr) : Nat → Maildir → MainSt → Prog (MainSt × Maildir)
-  | 0, md, st => pure (st, md)
+  | 0, md, st => pure ({ st with fuelOut := true }, md)      -- out of fuel: flagged, never silent
   | fuel + 1, md, st =>
     match md.dirH with
     | none => pure (st, md)
@@ -210,30 +222,39 @@ def maildirStdin (env : PEnv) (input : Bytes) : Prog (Maildir × Bool × Option 
               pure (md2, e2 || !isOk r3, some name)
     | _ => pure (md0, true, none)
 
-/-- `maildir_close` of the stdin maildir: best-effort removal of the spool. -/
-def closeStdin (md : Maildir) : Prog Unit := do
-  match md.dirH with
-  | some d =>
-    let _ ← call (.rewinddir d)
-    let rec loop (fuel : Nat) : Prog Unit :=
-      match fuel with
-      | 0 => pure ()
-      | f + 1 => do
-        let r ← call (.readdir d)
-        match r with
-        | .name n =>
-          if n == [46] || n == [46, 46] then loop f
-          else do
-            let _ ← call (.unlinkat d n)
-            loop f
-        | _ => pure ()
-    loop 64
-  | none => pure ()
+/-- The allowance of the walk over the stdin spool and of the loop that removes it (standard 64 plus the ghost
+`env.extraFuel`). -/
+def stdinFuel (env : PEnv) : Nat := 64 + env.extraFuel
+
+/-- The loop state after a `closeStdin` that reported `fo` ("out of fuel"). -/
+def orFuel (st : MainSt) (fo : Bool) : MainSt := { st with fuelOut := st.fuelOut || fo }
+
+/-- `maildir_close` of the stdin maildir: best-effort removal of the spool.  The value is the ghost flag "the
+`readdir` loop ran out of fuel" (`MainSt.fuelOut`); the C function returns nothing. -/
+def closeStdin (fuel : Nat) (md : Maildir) : Prog Bool := do
+  let fo ← (match md.dirH with
+    | some d => do
+      let _ ← call (.rewinddir d)
+      let rec loop (fuel : Nat) : Prog Bool :=
+        match fuel with
+        | 0 => pure true      -- out of fuel: flagged, never silent
+        | f + 1 => do
+          let r ← call (.readdir d)
+          match r with
+          | .name n =>
+            if n == [46] || n == [46, 46] then loop f
+            else do
+              let _ ← call (.unlinkat d n)
+              loop f
+          | _ => pure false
+      loop fuel
+    | none => pure false)
   let _ ← call (.rmdir md.path)
   let _ ← call (.rmdir md.root)
   match md.dirH with
   | some d => let _ ← call (.closedir d)
   | none => pure ()
+  pure fo
 
 /-- The exit status `main` computes from its flags. -/
 def exitStatus (env : PEnv) (st : MainSt) : Nat :=
@@ -264,15 +285,15 @@ def mainP (env : PEnv) (orc : EvalOracles) (confOk : Bool) (conf : List ConfBloc
               else if isStdinPath p then do
                 let (md, failed, spooled) ← maildirStdin env input
                 if failed then
-                  closeStdin md
-                  paths more { st with error := true }
+                  let fo ← closeStdin (stdinFuel env) md
+                  paths more (orFuel { st with error := true } fo)
                 else
                   let st1 := match spooled with
                     | some n => { st with files := st.files.put md.path n input }
                     | none => st
-                  let (st2, md2) ← walk env orc b.expr 64 md st1
-                  closeStdin md2
-                  paths more st2
+                  let (st2, md2) ← walk env orc b.expr (stdinFuel env) md st1
+                  let fo ← closeStdin (stdinFuel env) md2
+                  paths more (orFuel st2 fo)
               else
                 match strlcpyFits PATH_MAX p, pathjoin PATH_MAX p (subdirName .new) with
                 | some root, some np => do
@@ -280,7 +301,7 @@ def mainP (env : PEnv) (orc : EvalOracles) (confOk : Bool) (conf : List ConfBloc
                   if failed then paths more { st with error := true }
                   else
                     let n := (st.files.filter fun e => e.1 == np || e.1 == (root ++ [47] ++ subdirName .cur)).length
-                    let (st2, md2) ← walk env orc b.expr (2 * n + 8) md st
+                    let (st2, md2) ← walk env orc b.expr (2 * n + 8 + env.extraFuel) md st
                     maildirClose md2
                     paths more st2
                 | _, _ => paths more { st with error := true }
